@@ -420,8 +420,8 @@ func addFileWatch(data *ruleData, rule *FileWatchRule) error {
 }
 
 func addKeys(data *ruleData, keys []string) error {
-	if len(keys) > 0 {
-		key := strings.Join(keys, string(rune(keySeparator)))
+	// An empty key names nothing: like auditctl, add no key field for it.
+	if key := strings.Join(keys, string(rune(keySeparator))); key != "" {
 		if err := addFilter(data, "key", "=", key); err != nil {
 			return fmt.Errorf("failed to add keys [%v]: %w", strings.Join(keys, ","), err)
 		}
